@@ -6,3 +6,5 @@ import Bardolph.Audit.Tool
 import Bardolph.Props.C11
 import Bardolph.Props.C19
 import Bardolph.Props.C20
+import Bardolph.Props.C02
+import Bardolph.Props.C03
